@@ -799,6 +799,15 @@ class BaseOdeModel(object):
             # else:
             #     raise InputError("Input type should either be a string or list")
 
+            # a range style name such as 'y1:4' expands to several states, each of which
+            # needs its own copy of the limits
+            expanded_lim_list=[]
+            for att, lim in zip(attr_list, lim_list):
+                sym=symbols(att.ID if isinstance(att, ODEVariable) else att)
+                n_sym=len(sym) if isinstance(sym, (tuple, list)) else 1
+                expanded_lim_list+=[lim]*n_sym
+            lim_list=expanded_lim_list
+
             self._state_lims=lim_list                           # TODO: maybe assigning limits via a dict is tidier/safer
             self.__setattr__(attr_list_name, list(attr_list))
 
